@@ -14,37 +14,20 @@ ASSUMPTIONS = [
     "the synchronous driver is validated against the public-API driver on all short histories (conformance scenarios) "
     "and on every reported violation",
 ]
-SPEC = {'conf_quick': [('K2', 3)],
- 'conf_thorough': [('K2', 4), ('K10', 3)],
- 'quick': [('K1', 'ar', 7),
-           ('K10', 'ar', 7),
-           ('K16', 'cross', 4),
-           ('K1', 'std', 3),
-           ('K2', 'std', 3),
-           ('K10', 'lend', 4),
-           ('K4', 'small', 4),
-           ('K7', 'small', 3),
-           ('K12', 'lend', 4)],
- 'thorough': [('K1', 'ar', 8),
-              ('K10', 'ar', 8),
-              ('K13', 'ar', 8),
-              ('K16', 'cross', 5),
-              ('K0', 'std', 4),
-              ('K1', 'std', 4),
-              ('K2', 'std', 4),
-              ('K3', 'std', 4),
-              ('K4', 'std', 4),
-              ('K6', 'std', 4),
-              ('K8', 'std', 4),
-              ('K10', 'std', 4),
-              ('K13', 'std', 4),
-              ('K7', 'std', 3),
-              ('K2', 'small', 5),
-              ('K4', 'small', 5),
-              ('K10', 'lend', 5),
-              ('K12', 'lend', 5),
-              ('K13', 'lend', 5),
-              ('lasso', 'K10', 'lend', 3, 6)]}
+SPEC = {
+    'quick': [('K1', 'ar', 7),
+              ('K10', 'ar', 7),
+              ('K16', 'cross', 4),
+              ('K1', 'std', 3),
+              ('K2', 'std', 3),
+              ('K10', 'lend', 4),
+              ('K4', 'small', 4),
+              ('K7', 'small', 3),
+              ('K12', 'lend', 4)],
+    'conf_quick': [('K2', 3)],
+    'conf_thorough': [('K2', 3), ('K10', 3)],
+}
+SPEC['thorough'] = X.thorough_spec(SPEC['quick'], [('K10', 'lend'), ('K12', 'lend')])
 BOUNDS = {t: dict(spec=SPEC[t]) for t in ("quick", "thorough")}
 EXPLANATION = ("explicit-state BFS over operation histories with state de-duplication; every transition executes the "
                "real exchange; traces_validated_against_impl = histories executed through BOTH drivers (sync and "
